@@ -56,6 +56,8 @@ def expertTargets (d : Defs) (f : Nat) : List Opnd :=
 /-- `none` = well-formed, `some reason` otherwise -/
 def wellFormed (h : History) : Option String := Id.run do
   let d := h.defs
+  let hasScoped := d.bodies.any fun (_, _, alts) => alts.any fun t => t.instrs.any fun i =>
+    match i with | .scopedVar _ => true | _ => false
   let mut nTop := 0
   let mut nObs := 0
   let mut nVars := 0
@@ -72,7 +74,7 @@ def wellFormed (h : History) : Option String := Id.run do
       match i with
       | .map f _ =>
         for e in ((d.fns.lookup f).map (·.effects)).getD [] do
-          if !(effectOk nTop nObs nVars false e) then return some s!"action {idx}: effect of f{f} refers to something that does not exist, or is not allowed"
+          if !(effectOk nTop nObs (if hasScoped then 1000000 else nVars) false e) then return some s!"action {idx}: effect of f{f} refers to something that does not exist, or is not allowed"
         for e in expertTargets d f do pending := (e, nTop) :: pending
       | .bind b _ =>
         match d.bodies.lookup b with
@@ -97,12 +99,13 @@ def wellFormed (h : History) : Option String := Id.run do
     | .subscribe o hid =>
       if !(o < nObs) then return some s!"action {idx}: no such observer"
       for e in (d.hdls.lookup hid).getD [] do
-        if !(effectOk nTop nObs nVars true e) then return some s!"action {idx}: handler h{hid} has an effect that is not allowed"
+        if !(effectOk nTop nObs (if hasScoped then 1000000 else nVars) true e) then return some s!"action {idx}: handler h{hid} has an effect that is not allowed"
       nTok := nTok + 1
     | .unsubscribe o _ => if !(o < nObs) then return some s!"action {idx}: no such observer"
     | .stateUnsub _ => pure ()
     | .set v _ | .modify v _ | .update v _ | .replace v _ | .replaceWith v _ | .get v | .dropVar v =>
-      if !(v < nVars) then return some s!"action {idx}: no such var"
+      -- variables made by `scopedvar` inside bind closures get their ordinals at run time: `wellFormedDyn`
+      if !(v < nVars) && !hasScoped then return some s!"action {idx}: no such var"
     | .addDep e c _ =>
       if !(opndOk nTop 0 e && opndOk nTop 0 c) then return some s!"action {idx}: adddep operand missing"
       pending := pending.filter fun (pe, drv) => !(pe == e && c == .outer drv)
